@@ -32,6 +32,10 @@ pub struct FollowJob {
     /// clear the running flag at this (1-based) `follow_line` probe event
     pub interrupt_at_probe: Option<usize>,
     pub file: String,
+    /// k > 0: the handle given to `FollowFileExecutor::new` is not a fresh one - up to k bytes of the existing content
+    /// have been read through it before (its cursor is not at 0, as with a handle the program has used itself)
+    #[serde(default)]
+    pub used_handle: usize,
 }
 
 #[derive(Debug)]
@@ -154,6 +158,11 @@ pub fn child_main(job_path: &str) -> i32 {
         Ok(f) => f,
         Err(_) => return 2,
     };
+    if job.used_handle > 0 {
+        use std::io::Read;
+        let mut sink = vec![0u8; job.used_handle];
+        let _ = (&file).read(&mut sink);
+    }
     let display = DisplayOptions { output_format: OutputFormat::Json, single_result: false, print_result: true };
     let result = match FollowFileExecutor::new(running, file, job.head, display, ExecutionEngine::new(&tables, &statement)) {
         Ok(mut ex) => ex.execute().map_err(|e| format!("{}", e)),
